@@ -7,5 +7,6 @@ mkdir -p $B
 rm -f $B/*.ml $B/*.mli
 cp ../coq/extracted/model.ml ../coq/extracted/model.mli *.ml $B/
 cd $B
-ENG=$(grep -o 'E_[a-z0-9_]*\.' driver.ml | sort -u | tr 'A-Z' 'a-z' | sed 's/\.$/.ml/' | tr '\n' ' ')
+ENG=$(grep -o 'E_[a-z0-9_]*\.' driver.ml | sort -u | tr 'A-Z' 'a-z' | sed 's/\.$/.ml/' | grep -v e_regex.ml | tr '\n' ' ')
+ENG="e_regex.ml $ENG"
 ocamlfind ocamlopt -w -a -package str -linkpkg model.mli model.ml util.ml autdump.ml $ENG driver.ml -o ../driver
